@@ -6,7 +6,7 @@
    (2) The token-mapper pipeline: which mapper sees which token, in which order.                   *)
 EXTENDS Integers, Sequences, FiniteSets, TLC
 
-Content == {"a", "n", "Q", "S", "B", "K", "N", "E"}
+Content == {"a", "n", "Q", "S", "B", "K", "N", "E", "R"}     \* R = U+FFFD, a VALID rune that looks like a decoding error
 
 RECURSIVE QuoteBody(_, _, _)
 QuoteBody(x, i, q) ==  \* strconv.Quote / QuoteRune escapes restricted to the alphabet; q = the quote symbol
